@@ -507,6 +507,20 @@ def run_case(job):
     return out
 
 
+def source_digest():
+    """sha256 over the .py files of the installed aquacrop package (to notice edits of /repo during the run)."""
+    import hashlib
+    import importlib.util
+    root = os.path.dirname(importlib.util.find_spec("aquacrop").origin)
+    h = hashlib.sha256()
+    for d, _, fs in sorted(os.walk(root)):
+        for f in sorted(fs):
+            if f.endswith(".py"):
+                h.update(f.encode())
+                h.update(open(os.path.join(d, f), "rb").read())
+    return h.hexdigest()
+
+
 def main():
     ap = argparse.ArgumentParser()
     ap.add_argument("--tier", choices=["quick", "thorough"], default="quick")
@@ -517,6 +531,10 @@ def main():
     import multiprocessing as mp
     t0 = time.time()
     rng = random.Random(a.seed)
+    try:
+        src0 = source_digest()
+    except Exception:  # noqa
+        src0 = None
     quick = a.tier == "quick"
     res = {"property": PROP, "tier": a.tier, "seed": a.seed}
     failures, exceptions, samples = [], [], []
@@ -604,6 +622,12 @@ def main():
     res["distinct_nontrivial"] = nontrivial
     res["failures"] = failures
     res["samples"] = samples[:8]
+    try:
+        if src0 is not None and source_digest() != src0:
+            exceptions.append("note: aquacrop source files changed on disk while the harness was running; every comparison is made between "
+                              "runs of one worker process (one imported copy of the package), so reported results remain self-consistent")
+    except Exception:  # noqa
+        pass
     res["wall_s"] = round(time.time() - t0, 2)
     res["exceptions"] = exceptions
     json.dump(res, open(a.out, "w"), indent=1, default=str)
